@@ -32,7 +32,7 @@ def matches(v, finding):
     return True
 
 
-NUM_KEYS = ["scenarios", "incomplete_scenarios", "single_outcome_scenarios", "states", "transitions", "invocations",
+NUM_KEYS = ["memory_stops", "scenarios", "incomplete_scenarios", "single_outcome_scenarios", "states", "transitions", "invocations",
             "schedules", "commands", "multi_outcome_points", "tainted_worlds", "dev_capped", "crash_runs", "crash_worlds", "io_fault_runs"]
 
 
@@ -64,20 +64,24 @@ def run(check, scenarios, props, depth=None, devbound=None, seconds=None, tag="n
     agg["samples"] = []
     agg["violations"] = []
     for (rc, val, err), cmd in zip(res, cmds):
+        crash = [ln for ln in err.splitlines() if ln.startswith("NXCRASH ")]
+        for ln in crash[:4]:
+            # a crash inside ninja (assertion, heap corruption, segfault) while exploring one scenario; the
+            # shard went on with the next scenario in a fresh worker
+            cj = json.loads(ln[8:])
+            sc = scenarios[cj["scenario_index"]]
+            for h in cj["history"]:
+                h["label"] = sc["ops"][h["op"]].get("label", "op%d" % h["op"])
+            check.violation("crash inside ninja (signal %d) in %s  history: %s" % (
+                cj["signal"], sc["name"], " ; ".join("%s%s" % (h["label"], h["choices"] or "") for h in cj["history"])),
+                {"engine": "nx", "scenario": sc, "history": cj["history"], "clause": "crash",
+                 "facts": {"signal": cj["signal"]}, "detail": err[-1500:]})
+        if rc == 97 and val is not None and crash:
+            rc = 0
         if rc != 0 or val is None:
             # A dying worker is a verdict of its own (crash inside ninja code) unless it is exit 2
             # (harness error).
-            crash = [ln for ln in err.splitlines() if ln.startswith("NXCRASH ")]
             if crash:
-                cj = json.loads(crash[-1][8:])
-                sc = scenarios[cj["scenario_index"]]
-                for h in cj["history"]:
-                    h["label"] = sc["ops"][h["op"]].get("label", "op%d" % h["op"])
-                check.violation("crash inside ninja (signal %d) in %s  history: %s  (other scenarios of this shard were not "
-                                "explored)" % (cj["signal"], sc["name"], " ; ".join("%s%s" % (h["label"], h["choices"] or "")
-                                                                                    for h in cj["history"])),
-                                {"engine": "nx", "scenario": sc, "history": cj["history"], "clause": "crash",
-                                 "facts": {"signal": cj["signal"]}, "detail": err[-1500:]})
                 continue
             if rc == 2:
                 check.harness_error("nx shard failed: %s\n%s" % (" ".join(cmd), err[-3000:]))
@@ -168,6 +172,7 @@ def coverage(agg, rule, families, extra=None):
         "worlds_after_a_crash_examined": agg.get("crash_worlds", 0),
         "injected_io_error_executions": agg.get("io_fault_runs", 0),
         "incomplete_scenarios": agg["incomplete_scenarios"],
+        "scenarios_stopped_by_the_memory_budget": agg.get("memory_stops", 0),
         "worlds_not_expanded_because_tainted_by_a_finding": agg["tainted_worlds"],
         "families": families,
         "samples": agg["samples"][:6] or [{"note": "no multi-command execution sampled"}],
